@@ -6,6 +6,7 @@ holds (and supplies the failing input). The route table itself (`routes`) is not
 theorems of Props.lean are re-proved by `decide` over whatever the table is now.
 -/
 import OG.C19.Model
+import OG.C19.Flow
 
 namespace OG.C19.Facts
 open OG.Gen.C19
@@ -180,5 +181,29 @@ theorem preMuxPrefixesC_expected : preMuxPrefixesC.map String.ofList = preMuxPre
 theorem routeGroups_expected : (routes.map (fun r => (r.group, r.external))).eraseDups = [
   ("AddFluxAPIRoute", false), ("AddInfluxDBAPIRoutes", false), ("AddPrometheusAPIRoutes", false),
   ("AddSysAPIRoutes", false), ("AddLogstreamAPIRoutes", false), ("NewServer", true)] := by decide +kernel
+
+/-! ## the database flows (ogfacts c19flow.go) -/
+
+/-- helper the Prometheus handlers take their database from (model: `stdInterp`, getDbRpByProm#0 = FormValue "db" or "prom"). -/
+theorem src_getDbRpByProm_expected : src_getDbRpByProm = "{ db := r.FormValue(\"db\") if db == \"\" { db = promql2influxql.DefaultDatabaseName } rp := r.FormValue(\"rp\") if rp == \"\" && h.MetaClient != nil { dbi, err := h.MetaClient.Database(db) if dbi != nil && err == nil { rp = dbi.DefaultRetentionPolicy } } if rp == \"\" { rp = promql2influxql.DefaultRetentionPolicyName } return db, rp }" := by rfl
+
+/-- helper of /api/v2/write (model: `stdInterp`, bucket2dbrp#0 = the bucket up to the first '/'). -/
+theorem src_bucket2dbrp_expected : src_bucket2dbrp = "{ switch idx := strings.IndexByte(bucket, '/'); idx { case -1: switch db := bucket; db { case \"\": return \"\", \"\", fmt.Errorf(`bucket name %q is missing a slash; not in \"database/retention-policy\" format`, bucket) default: return db, \"\", nil } default: switch db, rp := bucket[:idx], bucket[idx+1:]; { case db == \"\": return \"\", \"\", fmt.Errorf(`bucket name %q is in db/rp form but has an empty database`, bucket) default: return db, rp, nil } } }" := by rfl
+
+/-- handlers that call r.ParseForm() themselves (model: `viewOf`). -/
+theorem parseFormHandlers_expected : parseFormHandlers = ["servePromQuerySeries", "servePromQueryMetaData", "servePromQuerySeriesWithMetricStore", "servePromQueryMetaDataWithMetricStore"] := by rfl
+
+/-- the kinds of flow ends the extractor found: authorizer calls (query / write) and the acting
+sinks; `stmtdb` ends write the database into a statement, which then names it itself (and is
+authorized for it by name: `authorizeQuery_iff`). A new kind of sink shows up here. -/
+theorem flowEndKinds_expected : (dbFlows.flatMap (fun f => (f.authz ++ f.exec).map (fun e => (e.what, e.kind)))).eraseDups = [
+  ("db", "query"), ("q", "query"), ("stmtdb", "mstStmt.Database"), ("db", "ExecutionOptions.Database"), ("q", "ExecuteQuery#0"),
+  ("db", "write"), ("db", "RetryWritePointRows#0"), ("db", "uw.Db"), ("db", "octx.Database"), ("stmtdb", "promCommand.Database"),
+  ("db", "NewExecutionOptions#0")] := by decide +kernel
+
+/-- every database end the correspondence run evaluates is an expression `stdInterp` gives its
+real meaning to (serveMetrics reads its database from the configuration, not from the request). -/
+theorem flowSrcsUnderstood_expected : dbFlows.all (fun f => f.handler == "serveMetrics" ||
+    ((OG.C19.authzEnd f).all (·.src.understood) && (OG.C19.execEnd f).all (·.src.understood))) = true := by decide +kernel
 
 end OG.C19.Facts
